@@ -19,7 +19,7 @@ SPEC_BUILTINS = {
     "allocated", "content_unchanged", "field_unchanged", "is_none", "not_none", "seq_len", "seq_at", "disjoint",
     "mmap_of", "mset_of", "let", "Real", "Int", "TRUE", "FALSE", "INF", "null", "mset_remove", "same_object",
     "is_open_state", "lemma", "select", "store", "trunc0", "cls_of", "idiv", "imod", "to_real", "to_int", "floor",
-    "inflt", "clock", "at_suspend", "ENTRY", "mkval", "val_at", "mmap_add", "mmap_sub", "nonempty", "msum", "sum_axiom_bound", "sum_axiom_eq", "sum_axiom_update", "sum_axiom_remove", "sum_axiom_insert", "sum_axiom_empty", "mset_single", "mmap_empty", "mmap_put", "pure_call", "unchanged_except", "xor", "distinct", "log_factory_restored", "stages_in_order",
+    "inflt", "clock", "at_suspend", "ENTRY", "mkval", "val_at", "mmap_add", "mmap_sub", "nonempty", "msum", "sum_axiom_bound", "sum_axiom_eq", "sum_axiom_update", "sum_axiom_remove", "sum_axiom_insert", "sum_axiom_empty", "mset_single", "mmap_empty", "mmap_put", "pure_call", "unchanged_except", "xor", "distinct", "log_factory_restored", "stages_in_order", "ifdef", "wsum", "dec", "strp", "trade_when", "trade_price", "trade_amount",
 }
 
 unit = z3.Function("unit", z3.IntSort(), z3.RealSort())
@@ -90,6 +90,29 @@ def zmin(x, y):
     return z3.If(x <= y, x, y)
 
 
+_WSUM = {}
+
+
+def wsum_fn(items_sort):
+    f = _WSUM.get(str(items_sort))
+    if f is None:
+        f = _WSUM[str(items_sort)] = z3.Function("wsum", items_sort, z3.IntSort(), z3.IntSort(), z3.RealSort())
+    return f
+
+
+def wsum_axioms(t):
+    """AX-WSUM (recursive definition, instantiated at the occurring terms):
+       wsum(I, b, n) = 0 for n <= 0;  wsum(I, b, n) = wsum(I, b, n-1) + (amount(I[n-1]) if when(I[n-1]) >= b else 0)"""
+    I, b, n = t.arg(0), t.arg(1), t.arg(2)
+    f = t.decl()
+    dt = I.sort().range()
+    when = dt.accessor(0, 0)
+    amount = dt.accessor(0, 2)
+    e = z3.Select(I, n - 1)
+    return [z3.Implies(n <= 0, t == 0),
+            z3.Implies(n > 0, t == f(I, b, n - 1) + z3.If(when(e) >= b, amount(e), z3.RealVal(0)))]
+
+
 def card(dom):
     s = dom.sort().domain()
     if s == StrS:
@@ -136,7 +159,7 @@ def _collect_raw(e, seen, apps):
         if z3.is_app(t):
             d = t.decl()
             nm = d.name()
-            if (nm in ("q_down", "q_up", "q_he", "grid", "unit", "card_str", "card_ref", "card_id") or nm.startswith("msum_")) and d.arity() > 0:
+            if (nm in ("q_down", "q_up", "q_he", "grid", "unit", "card_str", "card_ref", "card_id", "wsum") or nm.startswith("msum_")) and d.arity() > 0:
                 if nm.startswith("msum_"):
                     nm = "msum"
                 # skip applications that mention bound variables
@@ -448,6 +471,10 @@ def instantiate(formulas, rounds=2, lite=False):
             if ("u", tid) not in done:
                 done.add(("u", tid))
                 new += unit_axioms(t)
+        for tid, t in apps.get("wsum", {}).items():
+            if ("w", tid) not in done:
+                done.add(("w", tid))
+                new += wsum_axioms(t)
         for nm in ("card_str", "card_ref", "card_id"):
             for tid, t in apps.get(nm, {}).items():
                 if ("c", tid) not in done:
